@@ -54,7 +54,7 @@ class StructObj:
         self.size = sum(w for _, w in self.fields)
 
     def sym_getattr(self, I, name):
-        if name in ("pack", "unpack"):
+        if name in ("pack", "unpack", "unpack_from"):
             return BoundBuiltin(self, name)
         if name == "size":
             return self.size
@@ -891,6 +891,21 @@ def call_method(I, recv, name, args, kw, node=None):
             return struct_pack(I, recv, args)
         if name == "unpack":
             return struct_unpack(I, recv, args[0])
+        if name == "unpack_from":
+            # unpack_from(buffer, offset=0) with offset >= 0: the fields of buffer[offset : offset+size]; struct.error unless at
+            # least `size` bytes follow the offset - which is exactly "that slice has `size` bytes".  (A negative offset counts
+            # from the end: not modelled.)
+            buf = args[0] if args else kw["buffer"]
+            off = args[1] if len(args) > 1 else kw.get("offset", 0)
+            if isinstance(off, SV):
+                if not I.valid(off.e >= 0):
+                    raise Unsupported("struct.unpack_from with an offset that may be negative")
+                hi = SV(off.e + recv.size, "int")
+            else:
+                if off < 0:
+                    raise Unsupported("struct.unpack_from with a negative offset")
+                hi = off + recv.size
+            return struct_unpack(I, recv, I.slice(buf, off, hi, None))
     if hasattr(recv, "sym_method"):
         r = recv.sym_method(I, name, args, kw)
         if r is not NotImplemented:
